@@ -766,6 +766,31 @@ func concurrent(b *harness.B, c *chaingen.Chain, samples []sample) {
 
 // ---------------------------------------------------------------- workload
 
+// spareCapacity re-allocates the slices of every v2 transaction with room behind their last element and returns the
+// number of transactions in which a renewal now stands beside a directly formed contract.
+func spareCapacity(blk *types.Block) (renewals int) {
+	for i := range blk.V2.Transactions {
+		t := &blk.V2.Transactions[i]
+		for _, res := range t.FileContractResolutions {
+			if r, ok := res.Resolution.(*types.V2FileContractRenewal); ok && len(t.FileContracts) == 0 {
+				t.FileContracts = []types.V2FileContract{r.NewContract}
+				renewals++
+				break
+			}
+		}
+		t.SiacoinInputs = append(make([]types.V2SiacoinInput, 0, len(t.SiacoinInputs)+2), t.SiacoinInputs...)
+		t.SiacoinOutputs = append(make([]types.SiacoinOutput, 0, len(t.SiacoinOutputs)+2), t.SiacoinOutputs...)
+		t.SiafundInputs = append(make([]types.V2SiafundInput, 0, len(t.SiafundInputs)+2), t.SiafundInputs...)
+		t.SiafundOutputs = append(make([]types.SiafundOutput, 0, len(t.SiafundOutputs)+2), t.SiafundOutputs...)
+		t.FileContracts = append(make([]types.V2FileContract, 0, len(t.FileContracts)+3), t.FileContracts...)
+		t.FileContractRevisions = append(make([]types.V2FileContractRevision, 0, len(t.FileContractRevisions)+2), t.FileContractRevisions...)
+		t.FileContractResolutions = append(make([]types.V2FileContractResolution, 0, len(t.FileContractResolutions)+2), t.FileContractResolutions...)
+		t.Attestations = append(make([]types.Attestation, 0, len(t.Attestations)+2), t.Attestations...)
+	}
+	blk.V2.Transactions = append(make([]types.V2Transaction, 0, len(blk.V2.Transactions)+2), blk.V2.Transactions...)
+	return
+}
+
 func collect(b *harness.B, fam string, idx int, blocks int, each func(c *chaingen.Chain, s sample)) (*chaingen.Chain, []sample) {
 	rng := b.SubRng(fmt.Sprint("net", idx))
 	net := chaingen.GenNet(rng, fam, b.Batch*100+idx)
@@ -851,6 +876,22 @@ func collect(b *harness.B, fam string, idx int, blocks int, each func(c *chainge
 				each(c, sample{cs: cs, b: inv, bs: ibs, valid: false, kinds: kinds})
 				if len(kept) < 12 && rng.IntN(6) == 0 {
 					kept = append(kept, sample{cs: cs, b: chaingen.CloneBlock(inv), bs: ibs, valid: false, kinds: kinds})
+				}
+			}
+		}
+		// a sibling whose slices have room behind them (as decoded blocks and block builders that carve transactions
+		// out of one array have): a transaction with a renewal also forms a contract, so that both kinds of new
+		// contract meet in one transaction. Valid or not, the inputs stay as they are - including the spare room.
+		if orig.V2 != nil && len(orig.V2.Transactions) > 0 {
+			sp := chaingen.CloneBlock(orig)
+			renewals := spareCapacity(&sp)
+			if err, sbs := c.TryVariant(&sp); !chaingen.IsSealFailure(err) {
+				spareCapacity(&sp) // fresh room: sealing has already validated the block once
+				each(c, sample{cs: cs, b: sp, bs: sbs, valid: err == nil, kinds: append(append([]string(nil), kinds...), "spare-capacity")})
+				b.Count("spare_capacity_siblings_sampled", 1)
+				if renewals > 0 {
+					b.Count("spare_capacity_siblings_with_formation_and_renewal_in_one_transaction", 1)
+					b.SetAdd("spare_capacity_sibling_verdicts", chaingen.NormErr(err))
 				}
 			}
 		}
@@ -1044,6 +1085,6 @@ func main() {
 		Run:         run,
 		MinEvals:    3000,
 		MinDistinct: 60,
-		Require:     []string{"half_second_median_timestamp_comparisons", "supplement_with_a_contract_not_expiring_comparisons", "recomputable_proof_hash_comparisons", "sub_second_timestamp_comparisons", "state_identity_comparisons", "accepted_blocks", "purity_calls_checked", "provenance_comparisons", "stepwise_comparisons", "copies_checked", "concurrent_calls", "max_overlapping_calls", "update_element_proof_purity_checked"},
+		Require:     []string{"half_second_median_timestamp_comparisons", "supplement_with_a_contract_not_expiring_comparisons", "recomputable_proof_hash_comparisons", "sub_second_timestamp_comparisons", "state_identity_comparisons", "accepted_blocks", "purity_calls_checked", "provenance_comparisons", "stepwise_comparisons", "copies_checked", "concurrent_calls", "max_overlapping_calls", "update_element_proof_purity_checked", "spare_capacity_siblings_with_formation_and_renewal_in_one_transaction"},
 	})
 }
